@@ -32,6 +32,8 @@ type Dict interface {
 	Items() ([][2]string, error)
 	Enc() (*boc.Cell, error)
 	Dec(c *boc.Cell) (Dict, error)
+	// Build: a dictionary made by the library's constructor from key and value lists in the order given
+	Build(pairs [][2]string) (Dict, error)
 }
 
 func cellFromBits(bits string) *boc.Cell {
@@ -106,6 +108,23 @@ func (d *gd[K]) Enc() (*boc.Cell, error) {
 	err := tlb.Marshal(c, d.m)
 	return c, err
 }
+func (d *gd[K]) Build(pairs [][2]string) (Dict, error) {
+	var ks []K
+	var vs []tlb.Uint32
+	for _, p := range pairs {
+		k, err := d.key(p[0])
+		if err != nil {
+			return nil, err
+		}
+		var v tlb.Uint32
+		if err := tlb.Unmarshal(cellFromBits(p[1]), &v); err != nil {
+			return nil, err
+		}
+		ks = append(ks, k)
+		vs = append(vs, v)
+	}
+	return &gd[K]{m: tlb.NewHashmapE(ks, vs)}, nil
+}
 func (d *gd[K]) Dec(c *boc.Cell) (Dict, error) {
 	n := &gd[K]{}
 	c.ResetCounters()
@@ -124,8 +143,14 @@ func New(kind string, n int) Dict {
 		return &gd[tlb.Uint8]{}
 	case "u9":
 		return &gd[tlb.Uint9]{}
+	case "u12":
+		return &gd[tlb.Uint12]{}
 	case "u15":
 		return &gd[tlb.Uint15]{}
+	case "u23":
+		return &gd[tlb.Uint23]{}
+	case "i12":
+		return &gd[tlb.Int12]{}
 	case "u16":
 		return &gd[tlb.Uint16]{}
 	case "u32":
@@ -156,7 +181,7 @@ func New(kind string, n int) Dict {
 	return nil
 }
 
-var AllTypes = [][2]any{{"u", 1}, {"u", 2}, {"u", 8}, {"u", 9}, {"u", 15}, {"u", 16}, {"u", 32}, {"u", 64},
+var AllTypes = [][2]any{{"u", 1}, {"u", 2}, {"u", 8}, {"u", 9}, {"u", 12}, {"u", 15}, {"u", 23}, {"i", 12}, {"u", 16}, {"u", 32}, {"u", 64},
 	{"i", 8}, {"i", 16}, {"i", 32}, {"i", 64}, {"b", 80}, {"b", 96}, {"b", 256}, {"b", 264}, {"b", 512}, {"a", 288}}
 
 // rec records one dictionary's life as a Dict_Trace segment.
@@ -405,6 +430,51 @@ func Replay(in string, w *ev.Writer) error {
 				break
 			}
 		}
+		// the same insertion order through the constructor (lists taken as given): same tree as the one built by Put
+		var pl [][2]string
+		seen := map[string]bool{}
+		for _, st := range v.Steps {
+			if st.Op == "put" && !seen[st.K] {
+				seen[st.K] = true
+				pl = append(pl, [2]string{st.K, st.V})
+			} else if st.Op == "put" {
+				pl = nil // an overwrite: the constructor's lists have no such thing
+				break
+			}
+		}
+		if len(pl) > 0 {
+			var tables []ev.M
+			err := safely(func() error {
+				for _, mk := range []func() (Dict, error){
+					func() (Dict, error) { return New(v.Kind, v.N).Build(pl) },
+					func() (Dict, error) {
+						d := New(v.Kind, v.N)
+						for _, p := range pl {
+							if e := d.Put(p[0], p[1]); e != nil {
+								return nil, e
+							}
+						}
+						return d, nil
+					}} {
+					d, e := mk()
+					if e != nil {
+						return e
+					}
+					c, e := d.Enc()
+					if e != nil {
+						return e
+					}
+					t := cells.Project([]*boc.Cell{c})
+					tables = append(tables, ev.M{"cells": t.Cells, "roots": t.Roots})
+				}
+				return nil
+			})
+			if err != nil {
+				r.fail("Orders", err, ev.M{"order": pl})
+			} else {
+				w.Emit(ev.M{"k": "Orders", "items": pl, "tables": tables})
+			}
+		}
 	}
 	w.Emit(ev.M{"k": "End", "events": w.N})
 	return sc.Err()
@@ -443,6 +513,182 @@ func fixKey(kind, k string) string {
 	return strings.Repeat(string(k[24]), 24) + k[24:]
 }
 
+// subset records ConfigParams.CloneKeepingSubsetOfKeys on a decoded configuration dictionary: ids requested in any order,
+// some twice, some absent.
+func subset(w *ev.Writer, rng *rand.Rand) {
+	w.Emit(ev.M{"k": "Reset", "n": 32, "kind": "cfg", "src": "config-subset"})
+	size := 1 + rng.Intn(12)
+	ids := map[uint32]uint32{}
+	for len(ids) < size {
+		id := uint32(rng.Intn(48))
+		if rng.Intn(4) == 0 {
+			id = rng.Uint32()
+		}
+		ids[id] = rng.Uint32()
+	}
+	var sorted []uint32
+	for id := range ids {
+		sorted = append(sorted, id)
+	}
+	sort.Slice(sorted, func(i, j int) bool { return sorted[i] < sorted[j] })
+	bits32 := func(x uint32) string { return fmt.Sprintf("%032b", x) }
+	var ks []tlb.Uint32
+	var vs []tlb.Ref[boc.Cell]
+	src := [][2]string{}
+	for _, id := range sorted {
+		ks = append(ks, tlb.Uint32(id))
+		vs = append(vs, tlb.Ref[boc.Cell]{Value: *cellFromBits(bits32(ids[id]))})
+		src = append(src, [2]string{bits32(id), bits32(ids[id])})
+	}
+	var req []uint32
+	for _, id := range sorted {
+		switch rng.Intn(4) {
+		case 0:
+		case 1:
+			req = append(req, id, id) // named twice
+		default:
+			req = append(req, id)
+		}
+	}
+	for k := rng.Intn(3); k > 0; k-- {
+		req = append(req, uint32(rng.Intn(64))) // possibly absent, possibly a repetition
+	}
+	rng.Shuffle(len(req), func(i, j int) { req[i], req[j] = req[j], req[i] })
+	reqBits := []string{}
+	for _, id := range req {
+		reqBits = append(reqBits, bits32(id))
+	}
+	m := ev.M{"k": "Subset", "src": src, "req": reqBits, "err": "", "items": [][2]string{}, "cells": []cells.C{}, "roots": []int{}}
+	err := safely(func() error {
+		orig := tlb.ConfigParams{Config: tlb.NewHashmap(ks, vs)}
+		c := boc.NewCell()
+		if e := tlb.Marshal(c, orig); e != nil {
+			return e
+		}
+		var decoded tlb.ConfigParams
+		if e := tlb.Unmarshal(c, &decoded); e != nil {
+			return e
+		}
+		clone := decoded.CloneKeepingSubsetOfKeys(req)
+		items := [][2]string{}
+		for _, it := range clone.Config.Items() {
+			vb, e := bitsOf(it.Value.Value)
+			if e != nil {
+				return e
+			}
+			items = append(items, [2]string{bits32(uint32(it.Key)), vb})
+		}
+		m["items"] = items
+		if len(items) == 0 {
+			return nil
+		}
+		out := boc.NewCell()
+		if e := tlb.Marshal(out, clone); e != nil {
+			return e
+		}
+		root, e := out.NextRef()
+		if e != nil {
+			return e
+		}
+		t := cells.Project([]*boc.Cell{root})
+		m["cells"], m["roots"] = t.Cells, t.Roots
+		return nil
+	})
+	if err != nil {
+		m["err"] = err.Error()
+	}
+	w.Emit(m)
+}
+
+// cluster: up to 7 keys of width n sharing a random prefix and differing only in the last t bits, t = n%8 (at least 3).
+func cluster(rng *rand.Rand, kind string, n int) ([]string, map[string]string) {
+	t := n % 8
+	if t < 3 {
+		t = 3
+	}
+	if t > n {
+		t = n
+	}
+	prefix := randBits(rng, n)[:n-t]
+	pairs := map[string]string{}
+	for tries := 0; tries < 40 && len(pairs) < 7; tries++ {
+		tail := ""
+		for i := 0; i < t; i++ {
+			tail += string("01"[rng.Intn(2)])
+		}
+		k := fixKey(kind, prefix+tail)
+		if len(k) == n {
+			pairs[k] = randBits(rng, 32)
+		}
+	}
+	keys := make([]string, 0, len(pairs))
+	for k := range pairs {
+		keys = append(keys, k)
+	}
+	sort.Strings(keys)
+	return keys, pairs
+}
+
+// orders: the same pairs put in different orders - by Put and through the constructor - must encode to the same tree.
+func orders(r *rec, w *ev.Writer, rng *rand.Rand, kind string, n int, keys []string, pairs map[string]string) {
+	small := keys
+	if len(small) > 7 {
+		small = small[:7]
+	}
+	var tables []ev.M
+	items := [][2]string{}
+	for _, k := range small {
+		items = append(items, [2]string{k, pairs[k]})
+	}
+	norders := 10
+	okAll := true
+	for p := 0; p < norders && okAll; p++ {
+		d := New(kind, n)
+		ord := append([]string{}, small...)
+		switch p {
+		case 0:
+			sort.Strings(ord)
+		case 1:
+			sort.Sort(sort.Reverse(sort.StringSlice(ord)))
+		default:
+			rng.Shuffle(len(ord), func(i, j int) { ord[i], ord[j] = ord[j], ord[i] })
+		}
+		err := safely(func() error {
+			if p%2 == 1 || p >= 6 { // the constructor takes the lists as they are
+				var pl [][2]string
+				for _, k := range ord {
+					pl = append(pl, [2]string{k, pairs[k]})
+				}
+				b, e := d.Build(pl)
+				if e != nil {
+					return e
+				}
+				d = b
+			} else {
+				for _, k := range ord {
+					if e := d.Put(k, pairs[k]); e != nil {
+						return e
+					}
+				}
+			}
+			c, e := d.Enc()
+			if e != nil {
+				return e
+			}
+			t := cells.Project([]*boc.Cell{c})
+			tables = append(tables, ev.M{"cells": t.Cells, "roots": t.Roots})
+			return nil
+		})
+		if err != nil {
+			r.fail("Orders", err, ev.M{"order": ord})
+			okAll = false
+		}
+	}
+	if okAll {
+		w.Emit(ev.M{"k": "Orders", "items": items, "tables": tables})
+	}
+}
+
 type Opts struct {
 	Tier          string
 	Seed          int64
@@ -454,13 +700,16 @@ type Opts struct {
 func Drive(w *ev.Writer, o Opts) {
 	rng := rand.New(rand.NewSource(o.Seed*2654435761 + int64(o.Shard)))
 	r := &rec{w: w}
-	rounds := 1
+	rounds := 2
 	maxN := 120
 	if o.Tier == "thorough" {
 		rounds = 4
 		maxN = 2000
 	}
 	for round := 0; round < rounds; round++ {
+		for k := 0; k < 6; k++ {
+			subset(w, rng)
+		}
 		for ti, ty := range AllTypes {
 			if (round*len(AllTypes)+ti)%o.Shards != o.Shard {
 				continue
@@ -512,50 +761,11 @@ func Drive(w *ev.Writer, o Opts) {
 			if r.enc() {
 				r.dec()
 			}
-			// Orders: the same pairs inserted in different orders
-			small := keys
-			if len(small) > 7 {
-				small = small[:7]
-			}
-			var tables []ev.M
-			items := [][2]string{}
-			for _, k := range small {
-				items = append(items, [2]string{k, pairs[k]})
-			}
-			norders := 8
-			okAll := true
-			for p := 0; p < norders && okAll; p++ {
-				d := New(kind, n)
-				ord := append([]string{}, small...)
-				switch p {
-				case 0:
-					sort.Strings(ord)
-				case 1:
-					sort.Sort(sort.Reverse(sort.StringSlice(ord)))
-				default:
-					rng.Shuffle(len(ord), func(i, j int) { ord[i], ord[j] = ord[j], ord[i] })
-				}
-				err := safely(func() error {
-					for _, k := range ord {
-						if e := d.Put(k, pairs[k]); e != nil {
-							return e
-						}
-					}
-					c, e := d.Enc()
-					if e != nil {
-						return e
-					}
-					t := cells.Project([]*boc.Cell{c})
-					tables = append(tables, ev.M{"cells": t.Cells, "roots": t.Roots})
-					return nil
-				})
-				if err != nil {
-					r.fail("Orders", err, ev.M{"order": ord})
-					okAll = false
-				}
-			}
-			if okAll {
-				w.Emit(ev.M{"k": "Orders", "items": items, "tables": tables})
+			orders(r, w, rng, kind, n, keys, pairs)
+			// clustered keys: equal in every whole byte (or in all but the last byte), different in the trailing bits
+			ckeys, cpairs := cluster(rng, kind, n)
+			if len(ckeys) >= 2 {
+				orders(r, w, rng, kind, n, ckeys, cpairs)
 			}
 		}
 	}
